@@ -116,7 +116,7 @@ type built struct {
 }
 
 func drawProgram(t *rapid.T, c *pkit.Ctx) *built {
-	env := progen.DrawEnv(t, progen.EnvOpt{Avoid: c.ActiveSet()})
+	env := progen.DrawEnv(t, progen.EnvOpt{Avoid: c.ActiveSet(), BlankFields: true})
 	p := progen.NewProg(env)
 	n := rapid.IntRange(6, 24).Draw(t, "ncalls")
 	b := &built{features: map[string]bool{}}
@@ -151,7 +151,7 @@ func drawProgram(t *rapid.T, c *pkit.Ctx) *built {
 			fs := &e2.Subject{Prog: p}
 			switch rapid.IntRange(0, 3).Draw(t, "functional") {
 			case 0:
-				sig := env.DrawSig(t, 2, 5, 3, []string{"named", "unnamed", "blank", "hostile"})
+				sig := env.DrawSig(t, 2, 5, 3, []string{"named", "unnamed", "blank", "hostile", "minted"})
 				if used.Claim("sig|" + sig.TypeKey()) {
 					e2.AddPlumb(p, used, fs, sig, sfx, -1)
 					b.calls = append(b.calls, "plumb:"+sig.FuncType(p.T))
